@@ -137,7 +137,7 @@ pub fn hkind_for(cfg: &FCfg) -> BoxedStrategy<HKind> {
 }
 
 pub fn cuckoo_cfg() -> impl Strategy<Value = FCfg> {
-    (2usize..=8, 1u32..=5, prop_oneof![Just(2usize), Just(3), Just(4), Just(5), Just(8), Just(16), Just(32), Just(63), Just(64), 2usize..=64])
+    (prop_oneof![12 => 2usize..=8, 1 => 9usize..=20], prop_oneof![12 => 1u32..=5, 1 => 6u32..=7], prop_oneof![Just(2usize), Just(3), Just(4), Just(5), Just(8), Just(16), Just(32), Just(63), Just(64), 2usize..=64])
         .prop_map(|(bucketsize, lg, l_fp)| FCfg::Cuckoo { bucketsize, n_buckets: 1 << lg, l_fp })
 }
 
@@ -155,7 +155,7 @@ pub fn quotient_cfg_small() -> impl Strategy<Value = FCfg> {
 }
 
 pub fn bloom_cfg() -> impl Strategy<Value = FCfg> {
-    (prop_oneof![1usize..=16, 1usize..=512], 0usize..=8).prop_map(|(m, k)| FCfg::Bloom { m, k })
+    (prop_oneof![1usize..=16, 1usize..=512], prop_oneof![12 => 0usize..=8, 1 => 9usize..=40]).prop_map(|(m, k)| FCfg::Bloom { m, k })
 }
 
 pub fn filter_cfg() -> impl Strategy<Value = FCfg> {
